@@ -17,9 +17,11 @@ pub mod nd;
 pub mod env;
 pub mod secp_model;
 
+pub mod c00;
 pub mod c01;
 pub mod c04;
 pub mod c05;
+pub mod c05a;
 pub mod c07a;
 pub mod c07b;
 pub mod c10;
@@ -36,6 +38,7 @@ pub fn registry() -> Vec<(&'static str, fn())> {
 	v.extend_from_slice(c07a::HARNESSES);
 	v.extend_from_slice(c07b::HARNESSES);
 	v.extend_from_slice(c05::HARNESSES);
+	v.extend_from_slice(c05a::HARNESSES);
 	v.extend_from_slice(c04::HARNESSES);
 	v.extend_from_slice(c11::HARNESSES);
 	v.extend_from_slice(c01::HARNESSES);
